@@ -296,6 +296,7 @@ reg(Check("C13", "model_checking",
                  Part("msg-fault", SRV, "^TestVerifC13MsgFault$", instr=True, gomaxprocs=16, deadline=(300, 2400)),
                  Part("acc-reply", SRV, "^TestVerifC13AccReply$", instr=True, shards=(16, 16)),
                  Part("at-load", SRV, "^TestVerifC13AtLoad$", instr=True, shards=(16, 16), deadline=(300, 1200)),
+                 Part("pb-client", SRV, "^TestVerifC13PbClient$", instr=True),
                  Part("drafty", "server/drafty", "^TestVerifC13Drafty$", shards=(16, 16), deadline=(300, 2400))]))
 
 MSG_RULE = ("BFS over histories of {pub by 4 users (one with forged sender header + noecho), soft/hard delete with 6 (quick) / 11 (thorough) "
